@@ -8,6 +8,7 @@ import (
 	"fmt"
 	"math"
 	"sort"
+	"strconv"
 	"strings"
 
 	openfgav1 "github.com/openfga/api/proto/openfga/v1"
@@ -113,6 +114,10 @@ func fmtWc(w []string) string {
 	return "[" + strings.Join(c, ",") + "]"
 }
 
+// snapshot runs inside simulated tasks (puresim's wgraph / wgraphquery calls):
+// it must not use fmt - fmt's printer pool (sync.Pool carries race
+// annotations) would order the tasks by accident and hide races from the
+// detector. strconv and strings only.
 func snapshot(g *graph.WeightedAuthorizationModelGraph) *wgSnap {
 	s := &wgSnap{names: map[string]string{}, rel: map[string]string{}}
 	nodes := g.GetNodes()
@@ -131,7 +136,7 @@ func snapshot(g *graph.WeightedAuthorizationModelGraph) *wgSnap {
 			to := e.GetTo()
 			if to.GetNodeType() == graph.OperatorNode {
 				if _, ok := s.names[to.GetUniqueLabel()]; !ok {
-					s.names[to.GetUniqueLabel()] = s.names[l] + "/e" + fmt.Sprint(i)
+					s.names[to.GetUniqueLabel()] = s.names[l] + "/e" + strconv.Itoa(i)
 					walk(to.GetUniqueLabel())
 				}
 			}
@@ -145,18 +150,18 @@ func snapshot(g *graph.WeightedAuthorizationModelGraph) *wgSnap {
 	orphan := 0
 	for _, l := range labels {
 		if _, ok := s.names[l]; !ok {
-			s.names[l] = fmt.Sprintf("orphan-op-%d", orphan)
+			s.names[l] = "orphan-op-" + strconv.Itoa(orphan)
 			orphan++
 		}
 	}
 	for _, l := range labels {
 		n := nodes[l]
-		s.lines = append(s.lines, fmt.Sprintf("node %s type=%d label=%s W=%s Wc=%s", s.names[l], n.GetNodeType(), normLabel(n), fmtW(n.GetWeights()), fmtWc(n.GetWildcards())))
+		s.lines = append(s.lines, "node "+s.names[l]+" type="+strconv.Itoa(int(n.GetNodeType()))+" label="+normLabel(n)+" W="+fmtW(n.GetWeights())+" Wc="+fmtWc(n.GetWildcards()))
 		if n.GetNodeType() == graph.SpecificTypeAndRelation {
-			s.rel[l] = fmt.Sprintf("W=%s", fmtW(n.GetWeights()))
+			s.rel[l] = "W=" + fmtW(n.GetWeights())
 		}
 		for i, e := range edges[l] {
-			s.lines = append(s.lines, fmt.Sprintf("edge %s #%d -> %s kind=%d ts=%s conds=%v W=%s Wc=%s", s.names[l], i, s.names[e.GetTo().GetUniqueLabel()], e.GetEdgeType(), e.GetTuplesetRelation(), e.GetConditions(), fmtW(e.GetWeights()), fmtWc(e.GetWildcards())))
+			s.lines = append(s.lines, "edge "+s.names[l]+" #"+strconv.Itoa(i)+" -> "+s.names[e.GetTo().GetUniqueLabel()]+" kind="+strconv.Itoa(int(e.GetEdgeType()))+" ts="+e.GetTuplesetRelation()+" conds=["+strings.Join(e.GetConditions(), " ")+"] W="+fmtW(e.GetWeights())+" Wc="+fmtWc(e.GetWildcards()))
 		}
 	}
 	sort.Strings(s.lines)
@@ -874,6 +879,9 @@ func wgRunOne(b *BatchResult, prop string, seed, run uint64, p wgParams) {
 	} else if (prop == "C11" && r.chance(30)) || (prop == "C06" && r.chance(10)) || (prop == "C04" && r.chance(3)) {
 		m = genWildcardLattice(r)
 		b.Mix["wildcard_lattice_models"]++
+	} else if r.chance(2) {
+		m = genSeparatorCollision(r)
+		b.Mix["separator_collision_models"]++
 	}
 	if (prop == "C05" || prop == "C04") && r.chance(2) && injectEmptyDirect(r, m) {
 		b.Mix["models_with_empty_direct_assignment_under_operator"]++
